@@ -2,6 +2,7 @@ import EaselModel.Sqio.Geometry
 import EaselModel.Sqio.Tracker
 import EaselModel.Sqio.AfetchMain
 import EaselModel.Sqio.EchoSpec
+import EaselModel.Sqio.FetchSpec
 /-! # C07 — fetching by key, number or coordinates returns what a sequential scan returns
 
 Property theorems only (proofs are glue on `Sqio/Geometry.lean`, `Sqio/Tracker.lean`).
@@ -16,7 +17,9 @@ the part of (1) that the code really guarantees (`bplrpl_sound_partial`: lines f
 half of (1) is FALSE for the code (`bplrpl_unsound_*`, known finding `C07:seebuf:line-geometry-accepts-long-last-line`);
 (3) whole-record fetch through `sqascii_Echo` (what `esl-sfetch` prints for a key): `echo_eq_scan_bytes` /
 `echo_of_scanned_record` — the bytes `roff..eoff` of the record the sequential scan found, for every block size; the subsequence
-clause of (3) is tied by the differential run and the fetch = slice-of-scan monitor.
+clause of (3): `fetchSubseq_eq_scan_slice_brute` (no fast-subseq flag: unconditional), `fetchSubseq_eq_scan_slice_line` /
+`_residue` (under the line geometry the index promises — exactly the hypothesis the known finding shows the tracker does not always
+deliver), `fetchSubseq_end_out_of_range`; all for every read-block size, FASTA.
 (5) esl-afetch: `afetch_*` below (model `Sqio/AfetchModel.lean`, over the C06 index model and a Stockholm database as bytes). -/
 namespace EaselModel.Props.C07
 open EaselModel.Sqio EaselModel.Sqio.Geometry EaselModel.Sqio.Tracker
@@ -156,6 +159,93 @@ example : (echo { file := demoFile, B := 2 } { roff := 6, eoff := 10 }).2 = (.ok
 example : (ParseFasta.parseFasta 0 demoFile).1.map (fun s => (s.roff, s.eoff)) = [(0, 5), (6, 10)] := by decide +kernel
 
 end echo
+
+/-! ## (3) subsequence fetch: `sqascii_FetchSubseq key start..end` = residues `start..end` of the scanned record, for every block size
+
+`s` is a record of the sequential scan (`parseFasta abc bytes`, which by `C04.read_all_eq_parseFasta` is what `sqascii_Read` returns for
+every block size); `e` the index entry stored for it (`roff`, `doff`, `L`, as `create_ssi_index` stores them); `a` ANY block-mode handle on
+the file (any `B ≥ 1`, cursor anywhere); `sq` a reused `ESL_SQ` of the right mode. The fetched object then holds exactly
+`s.seq[start..end]`, coordinates `start..end`, `L`, the description, `source = key`, `name = key/start-end`. -/
+section fetchsub
+open EaselModel.Sqio.FetchSpec EaselModel.Sqio.ParseFasta EaselModel.Sqio.BodySpec
+
+/-- **(3, brute force) the index does not promise a line geometry (`eslSSI_FASTSUBSEQ` off): FETCH = slice of SCAN, unconditionally** -/
+theorem fetchSubseq_eq_scan_slice_brute (bytes : Bytes) (abc : Nat) (habc : abc ∈ [0, 1, 2, 3]) (s : Sq) (hs : s ∈ (parseFasta abc bytes).1)
+    (ssi : Ssi) (key : Bytes) (e : SsiEntry) (he : ssi.findName key = some e) (her : e.roff = s.roff) (hed : e.doff = s.doff)
+    (hel : e.len = s.L) (hfast : ssi.fast = false) (start end_ : Int)
+    (a : Ascii) (hf : a.file = bytes) (hb : a.linebased = false) (hr : a.recording ≠ 1) (hB : 1 ≤ a.B)
+    (hi : a.inmap = inmapFasta abc) (hfmt : a.fmt = 1) (heof : a.eofIsOk = true)
+    (sq : Sq) (hdig : sq.digital = (abc != 0)) (hsabc : sq.abc = abc) (hseq : sq.seq = #[]) (hna : 2 ≤ sq.nalloc) (hda : 2 ≤ sq.dalloc)
+    (h1 : 1 ≤ start) (h2 : start ≤ end_) (h3 : end_ ≤ s.L) :
+    (fetchSubseq a ssi sq key start end_).2.2 = .ok ∧
+    (fetchSubseq a ssi sq key start end_).2.1.seq = s.seq.extract (start - 1).toNat end_.toNat ∧
+    (fetchSubseq a ssi sq key start end_).2.1.start = start ∧ (fetchSubseq a ssi sq key start end_).2.1.end_ = end_ ∧
+    (fetchSubseq a ssi sq key start end_).2.1.L = s.L ∧ (fetchSubseq a ssi sq key start end_).2.1.desc = s.desc ∧
+    (fetchSubseq a ssi sq key start end_).2.1.source = key ∧
+    (fetchSubseq a ssi sq key start end_).2.1.name = key ++ #[47] ++ decBytes start ++ #[45] ++ decBytes end_ :=
+  FetchSpec.fetchSubseq_eq_slice_brute bytes abc habc s hs ssi key e he her hed hel hfast start end_ a hf hb hr hB hi hfmt heof sq hdig hsabc
+    hseq hna hda h1 h2 h3
+
+/-- **(3, line addressing)** `bpl = b ≠ rpl + 1`: if the record's data really begins with `(start−1)/r` complete lines of `b` bytes and `r`
+    residues (all of them data bytes) — what `bpl, rpl > 0` is meant to promise — FETCH = slice of SCAN -/
+theorem fetchSubseq_eq_scan_slice_line (bytes : Bytes) (abc : Nat) (habc : abc ∈ [0, 1, 2, 3]) (s : Sq) (hs : s ∈ (parseFasta abc bytes).1)
+    (ssi : Ssi) (key : Bytes) (e : SsiEntry) (he : ssi.findName key = some e) (her : e.roff = s.roff) (hed : e.doff = s.doff)
+    (hel : e.len = s.L) (hfast : ssi.fast = true) (b r : Nat) (hbpl : ssi.bpl = (b : Int)) (hrpl : ssi.rpl = (r : Int))
+    (hr0 : 0 < r) (hb0 : 0 < b) (hne : b ≠ r + 1) (start end_ : Int)
+    (a : Ascii) (hf : a.file = bytes) (hb : a.linebased = false) (hr : a.recording ≠ 1) (hB : 1 ≤ a.B)
+    (hi : a.inmap = inmapFasta abc) (hfmt : a.fmt = 1) (heof : a.eofIsOk = true)
+    (sq : Sq) (hdig : sq.digital = (abc != 0)) (hsabc : sq.abc = abc) (hseq : sq.seq = #[]) (hna : 2 ≤ sq.nalloc) (hda : 2 ≤ sq.dalloc)
+    (h1 : 1 ≤ start) (h2 : start ≤ end_) (h3 : end_ ≤ s.L)
+    (lines : List (List UInt8)) (tail : List UInt8) (hgeo : bytes.toList.drop s.doff.toNat = lines.flatten ++ tail)
+    (hfull : Geometry.FullLines (isRes (inmapFasta abc)) b r lines)
+    (hdat : ∀ c ∈ lines.flatten, isData (inmapFasta abc) c = true) (hl : lines.length = (start.toNat - 1) / r) :
+    (fetchSubseq a ssi sq key start end_).2.2 = .ok ∧
+    (fetchSubseq a ssi sq key start end_).2.1.seq = s.seq.extract (start - 1).toNat end_.toNat ∧
+    (fetchSubseq a ssi sq key start end_).2.1.start = start ∧ (fetchSubseq a ssi sq key start end_).2.1.end_ = end_ ∧
+    (fetchSubseq a ssi sq key start end_).2.1.L = s.L ∧ (fetchSubseq a ssi sq key start end_).2.1.desc = s.desc ∧
+    (fetchSubseq a ssi sq key start end_).2.1.source = key ∧
+    (fetchSubseq a ssi sq key start end_).2.1.name = key ++ #[47] ++ decBytes start ++ #[45] ++ decBytes end_ :=
+  FetchSpec.fetchSubseq_eq_slice_line bytes abc habc s hs ssi key e he her hed hel hfast b r hbpl hrpl hr0 hb0 hne start end_ a hf hb hr hB hi
+    hfmt heof sq hdig hsabc hseq hna hda h1 h2 h3 lines tail hgeo hfull hdat hl
+
+/-- **(3, residue addressing)** `bpl = rpl + 1`: moreover the line holding residue `start` begins with more than `(start−1) % r` residues
+    and nothing else before them -/
+theorem fetchSubseq_eq_scan_slice_residue (bytes : Bytes) (abc : Nat) (habc : abc ∈ [0, 1, 2, 3]) (s : Sq) (hs : s ∈ (parseFasta abc bytes).1)
+    (ssi : Ssi) (key : Bytes) (e : SsiEntry) (he : ssi.findName key = some e) (her : e.roff = s.roff) (hed : e.doff = s.doff)
+    (hel : e.len = s.L) (hfast : ssi.fast = true) (r : Nat) (hbpl : ssi.bpl = ((r + 1 : Nat) : Int)) (hrpl : ssi.rpl = (r : Int))
+    (hr0 : 0 < r) (start end_ : Int)
+    (a : Ascii) (hf : a.file = bytes) (hb : a.linebased = false) (hr : a.recording ≠ 1) (hB : 1 ≤ a.B)
+    (hi : a.inmap = inmapFasta abc) (hfmt : a.fmt = 1) (heof : a.eofIsOk = true)
+    (sq : Sq) (hdig : sq.digital = (abc != 0)) (hsabc : sq.abc = abc) (hseq : sq.seq = #[]) (hna : 2 ≤ sq.nalloc) (hda : 2 ≤ sq.dalloc)
+    (h1 : 1 ≤ start) (h2 : start ≤ end_) (h3 : end_ ≤ s.L)
+    (lines : List (List UInt8)) (res tail : List UInt8) (hgeo : bytes.toList.drop s.doff.toNat = lines.flatten ++ (res ++ tail))
+    (hfull : Geometry.FullLines (isRes (inmapFasta abc)) (r + 1) r lines)
+    (hdat : ∀ c ∈ lines.flatten, isData (inmapFasta abc) c = true) (hres : ∀ c ∈ res, isRes (inmapFasta abc) c = true)
+    (hj : (start.toNat - 1) % r ≤ res.length) (hl : lines.length = (start.toNat - 1) / r) :
+    (fetchSubseq a ssi sq key start end_).2.2 = .ok ∧
+    (fetchSubseq a ssi sq key start end_).2.1.seq = s.seq.extract (start - 1).toNat end_.toNat ∧
+    (fetchSubseq a ssi sq key start end_).2.1.start = start ∧ (fetchSubseq a ssi sq key start end_).2.1.end_ = end_ ∧
+    (fetchSubseq a ssi sq key start end_).2.1.L = s.L ∧ (fetchSubseq a ssi sq key start end_).2.1.desc = s.desc ∧
+    (fetchSubseq a ssi sq key start end_).2.1.source = key ∧
+    (fetchSubseq a ssi sq key start end_).2.1.name = key ++ #[47] ++ decBytes start ++ #[45] ++ decBytes end_ :=
+  FetchSpec.fetchSubseq_eq_slice_residue bytes abc habc s hs ssi key e he her hed hel hfast r hbpl hrpl hr0 start end_ a hf hb hr hB hi
+    hfmt heof sq hdig hsabc hseq hna hda h1 h2 h3 lines res tail hgeo hfull hdat hres hj hl
+
+/-- (4e) `end < start` or `end > L`: `eslERANGE`, never data -/
+theorem fetchSubseq_end_out_of_range (a : Ascii) (ssi : Ssi) (sq : Sq) (key : Bytes) (start end_ roff doff len actualStart : Int)
+    (hfs : findSubseq ssi key start = .ok (roff, doff, len, actualStart)) (he0 : end_ ≠ 0)
+    (h : start > end_ ∨ (0 < len ∧ end_ > len)) :
+    (fetchSubseq a ssi sq key start end_).2.2 = .erange :=
+  FetchSpec.fetchSubseq_erange a ssi sq key start end_ roff doff len actualStart hfs he0 h
+
+/-- what the scan says about every record it returns: offsets inside the file, the header re-parses at `roff`, the residues are the
+    residues of the data bytes at `doff`, `L` is their number -/
+theorem scanned_record_shape (bytes : Bytes) (abc : Nat) (s : Sq) (hs : s ∈ (parseFasta abc bytes).1) :
+    0 ≤ s.roff ∧ s.roff < (bytes.size : Int) ∧ 0 < s.doff ∧ s.doff ≤ (bytes.size : Int) ∧ s.L = (s.seq.size : Int) :=
+  let h := FetchSpec.record_shape bytes abc s hs
+  ⟨h.1, h.2.1, h.2.2.1, h.2.2.2.1, h.2.2.2.2.2.2.1⟩
+
+end fetchsub
 
 /-! ## (5) esl-afetch: fetching a named alignment from a multi-alignment Stockholm file
 
